@@ -129,13 +129,6 @@ func ints(b []byte) []int {
 	return r
 }
 
-func capInts(b []byte, max int) []int {
-	if len(b) > max {
-		return []int{}
-	}
-	return ints(b)
-}
-
 // expand materialises an input description (the classes enumerated by FilterGen.tla).
 func expand(in inp, seed int64) []byte {
 	n := in.N
